@@ -35,7 +35,8 @@ class World:
     def __init__(self, ctx, rng, root, mode="cache"):
         self.ctx, self.r, self.root, self.mode = ctx, rng, root, mode
         self.mdir = os.path.join(root, "model")
-        self.ldir = os.path.join(root, "lib")
+        # sometimes the library folder's path has the model folder's path as a plain string prefix
+        self.ldir = os.path.join(root, rng.choice(["lib", "model_lib", "modellib"]))
         os.makedirs(self.mdir)
         os.makedirs(self.ldir)
         self.clock = 1_500_000_000
@@ -77,9 +78,9 @@ class World:
         # every option that can be flipped has something to act on, so that a stale cache is observable
         return ("model M\n  Real x(start = %d);\n  Real y(max = 2 * p + 1);\n  Real w;\n  parameter Real p = %d;\n"
                 "  parameter Real q = 2 * p;\n  constant Real cc = 3;\n  constant Real c2 = 6;\n"
-                "  Real al;\n  Real da;\n  Real kc;\n  Real fs;\n  Real v[2];\n  Real _el;\n  LibComp c;\n%s"
+                "  Real al;\n  Real da;\n  Real kc;\n  Real k2;\n  Real fs;\n  Real v[2];\n  Real _el;\n  LibComp c;\n%s"
                 "equation\n  der(x) = -%d * x + p + q;\n  y = c.z + x + cc + c2;\n  al = y;\n  da = der(x);\n  kc = 5;\n"
-                "  0 = 2 * (fs - x);\n  v = {x, y};\n  _el = 3 * x + 1;\n%send M;\n" % (self.k_model, self.k_model + 1, extra, self.k_model, eq_extra))
+                "  0 = 2 * (fs - x);\n  v = {x, y};\n  _el = 3 * x + 1;\n  k2 = kc + 1;\n%send M;\n" % (self.k_model, self.k_model + 1, extra, self.k_model, eq_extra))
 
     def write_model(self):
         p = os.path.join(self.mdir, "M.mo")
@@ -125,15 +126,15 @@ class World:
         k = r.random()
         if force_transfer or k < 0.4:
             return self.op_transfer("cache")
-        if k < 0.52:
+        if k < 0.50:
             self.k_model += r.randint(1, 3)
             self.write_model()
             self.ops.append(["edit-model-file", self.k_model])
-        elif k < 0.64:
+        elif k < 0.60:
             self.k_lib += r.randint(1, 3)
             self.write_lib()
             self.ops.append(["edit-library-file", self.k_lib])
-        elif k < 0.78:
+        elif k < 0.72:
             first = self.k_extra is None
             self.k_extra = (self.k_extra or 4) + r.randint(1, 3)
             self.write_extra()
@@ -142,12 +143,24 @@ class World:
             # a later edit rewrites only the file in the sub-folder, in place: neither the model file nor any
             # directory gets a new modification time
             self.ops.append(["add-library-file-in-subfolder" if first else "edit-library-file-in-subfolder", self.k_extra])
-        elif k < 0.82 and self.opts.get("expand_mx"):
+        elif k < 0.77:
+            # an option that is in no default table (so a cache written before does not store it), on a model where it
+            # matters: k2 = kc + 1 only becomes a constant assignment in a second simplification pass
+            if self.opts.get("iterative_simplification"):
+                del self.opts["iterative_simplification"]
+            else:
+                self.opts.update({"eliminate_constant_assignments": True, "replace_constant_values": True})
+                bad = self.op_transfer("cache")
+                if bad:
+                    return bad
+                self.opts["iterative_simplification"] = True
+            self.ops.append(["option-change", "iterative_simplification", bool(self.opts.get("iterative_simplification"))])
+        elif k < 0.84 and self.opts.get("expand_mx"):
             # differs from the cached options only in a value that is None by default
             cur = self.opts.get("eliminable_variable_expression")
             self.opts["eliminable_variable_expression"] = None if cur else r"_\w+"
             self.ops.append(["option-change", "eliminable_variable_expression", self.opts["eliminable_variable_expression"]])
-        elif k < 0.92:
+        elif k < 0.94:
             o = r.choice(OPTION_FLIPS)
             from pymoca.backends.casadi._options import _get_default_options
             cur = self.opts.get(o, _get_default_options().get(o, False))
